@@ -169,23 +169,28 @@ func (r *c12Renderer) wrapped(b *c12Block, ind string) string {
 	panic("bad kind")
 }
 
-func c12Source(roles [][]*c12Block) string {
+// c12Source renders one SOURCE (module) per role: blocks of one name written in different
+// sources are blocks of the same name.
+func c12Source(roles [][]*c12Block) []string {
 	r := &c12Renderer{}
-	var works []string
+	var srcs []string
 	for i, role := range roles {
+		r.funcs = nil
 		var sb strings.Builder
 		sb.WriteString(fmt.Sprintf("func work%d() {\n", i))
 		for _, b := range role {
 			sb.WriteString(r.wrapped(b, "    "))
 		}
 		sb.WriteString("    return 0\n}\n")
-		works = append(works, sb.String())
-	}
-	src := "ca := 0\ncb := 0\ncc := 0\n" + strings.Join(r.funcs, "") + strings.Join(works, "")
-	for i := range roles {
+		src := ""
+		if i == 0 {
+			src = "ca := 0\ncb := 0\ncc := 0\n"
+		}
+		src += strings.Join(r.funcs, "") + sb.String()
 		src += fmt.Sprintf("sink s%d\n    kindmatch [ \"w%d\" ],\n    {\n        work%d()\n        x.fin()\n    }\n", i, i, i)
+		srcs = append(srcs, src)
 	}
-	return src
+	return srcs
 }
 
 // ---------------------------------------------------------------- generator
@@ -442,12 +447,15 @@ func c12Exec(payload string) string {
 	if mode == "I" {
 		return c12Ids(threads, iters, f[4])
 	}
+	if mode == "C" {
+		return c12Cold(threads, iters, seed, f[4])
+	}
 	var roles [][]*c12Block
 	for _, rt := range strings.Split(f[4], "|") {
 		pos := 0
 		roles = append(roles, c12ParseBlocks(rt, &pos))
 	}
-	src := c12Source(roles)
+	srcs := c12Source(roles)
 
 	run := &c12Run{stacks: map[uint64][]int{}, seed: seed}
 	for i := range run.inside {
@@ -522,15 +530,18 @@ func c12Exec(payload string) string {
 	erp.Processor = engine.NewProcessor(workers)
 	erp.Processor.SetFailOnFirstErrorInTriggerSequence(true)
 	vs := newGlobalScope()
-	ast, err := parser.ParseWithRuntime("c12", src, erp)
-	if err != nil {
-		return "parse-error " + hx(err.Error())
-	}
-	if err = ast.Runtime.Validate(); err != nil {
-		return "validate-error " + hx(err.Error())
-	}
-	if _, err = ast.Runtime.Eval(vs, make(map[string]interface{}), erp.NewThreadID()); err != nil {
-		return "eval-error " + hx(err.Error())
+	mainTid := erp.NewThreadID()
+	for i, src := range srcs {
+		ast, err := parser.ParseWithRuntime(fmt.Sprintf("c12r%d.ecal", i), src, erp)
+		if err != nil {
+			return "parse-error " + hx(err.Error())
+		}
+		if err = ast.Runtime.Validate(); err != nil {
+			return "validate-error " + hx(err.Error())
+		}
+		if _, err = ast.Runtime.Eval(vs, make(map[string]interface{}), mainTid); err != nil {
+			return "eval-error " + hx(err.Error())
+		}
 	}
 
 	total := 0
@@ -826,6 +837,48 @@ wait:
 	return res + " T=" + trace
 }
 
+// c12Cold = cold start: `reps` FRESH providers, on each of them `threads` gated threads run their
+// role once — every first use of a name (creation of its mutex, first owner entry) happens under
+// contention. The runs end quiescent, so their traces are concatenated and replayed as one.
+func c12Cold(threads, reps int, seed uint64, roles string) string {
+	var occ, cnt, end [3]int
+	doneA, doneB, term := 0, 0, 0
+	var traces []string
+	for k := 0; k < reps; k++ {
+		res := c12Exec(fmt.Sprintf("D %d 1 %d %s", threads, seed+uint64(k), roles))
+		sum, tr := res, "-"
+		if i := strings.Index(res, " T="); i >= 0 {
+			sum, tr = res[:i], res[i+3:]
+		}
+		var o, c [3]int
+		var da, db, mt, tm, e0, e1 int
+		if n, _ := fmt.Sscanf(sum, "occ=%d,%d,%d cnt=%d,%d,%d done=%d/%d meet=%d term=%d end=%d,%d",
+			&o[0], &o[1], &o[2], &c[0], &c[1], &c[2], &da, &db, &mt, &tm, &e0, &e1); n != 12 || strings.Contains(sum, "errors=") {
+			return fmt.Sprintf("provider %d: %s", k, res)
+		}
+		for i := 0; i < 3; i++ {
+			if o[i] > occ[i] {
+				occ[i] = o[i]
+			}
+			cnt[i] += c[i]
+		}
+		doneA += da
+		doneB += db
+		term += tm
+		end[0] += e0
+		end[1] += e1
+		if tr != "-" {
+			traces = append(traces, tr)
+		}
+	}
+	tr := strings.Join(traces, ".")
+	if tr == "" {
+		tr = "-"
+	}
+	return fmt.Sprintf("occ=%d,%d,%d cnt=%d,%d,%d done=%d/%d meet=0 term=%d end=%d,%d T=%s",
+		occ[0], occ[1], occ[2], cnt[0], cnt[1], cnt[2], doneA, doneB, term, end[0], end[1], tr)
+}
+
 // c12Ids hammers the thread-id generator: g goroutines request per ids each, all starting
 // together. variant p = pool.NewThreadID of a bare pool, e = erp.NewThreadID, w = a pool whose
 // worker count is raised step by step to g at the same time (the workers take their ids from
@@ -1065,6 +1118,11 @@ func init() {
 					g.Count("debugger lock state polled")
 				}
 			}
+			// cold start: every first use of a name under contention, on many fresh providers
+			emit("C", 16, 200, "an()")
+			emit("C", 16, 120, "an(bn())|bn(cn())|cn()")
+			emit("C", 8, 200, "bn()|bn()")
+			g.Count("cold start")
 			// debugger clients: concurrent `inject` commands are independent threads. (Not run while
 			// InjectValue evaluates with a literal thread id — see the fact literalTids and
 			// fixes/C12-inject-own-thread-id.patch — every such case shows the defect.)
